@@ -57,6 +57,11 @@ func (i *IndexReader) FieldDictRange(fieldName string, startTerm []byte, endTerm
 }
 
 func (i *IndexReader) FieldDictPrefix(fieldName string, termPrefix []byte) (index.FieldDict, error) {
+	if len(termPrefix) == 0 {
+		// every term has the empty prefix; an empty (non-nil) end term
+		// would describe the empty range instead
+		return i.FieldDictRange(fieldName, nil, nil)
+	}
 	return i.FieldDictRange(fieldName, termPrefix, termPrefix)
 }
 
